@@ -512,6 +512,7 @@ func c12Steps(dir string) []job.Step {
 		{Kind: job.List, Dir: dir, Fmt: "txt", Loud: true},
 		{Kind: job.List, Dir: dir, Fmt: "txt", Exposure: true, Loud: true},
 		{Kind: job.Diff, Dir1: dir, Dir2: "orig", Fmt: "txt", Loud: true},
+		{Kind: job.List, Dir: dir, Fmt: "json", Stop: true, Loud: true},
 	}
 	if c12Full {
 		st = append(st, job.Step{Kind: job.Diff, Dir1: "orig", Dir2: dir, Fmt: "txt", Loud: true})
